@@ -545,7 +545,22 @@ def run(ctx):
                "the password's key segments are walked front to back" if not rev else
                f"the password's key segments are walked backwards ({sorted(set(rev))}): with three or more keys the identity headers are emitted in the wrong chain order", ordinal=False)
     dec_sites = prog.callers_of(lambda c: c.name == "Encoding::decode" and "base64" in c.target)
-    ctx.floor("G5", "base64 key decodes", 2, len(dec_sites))
+    vec_sites = prog.callers_of(lambda c: c.name == "Encoding::decode_vec" and "base64" in c.target)
+    ctx.floor("G5", "base64 key decodes", 2, len(dec_sites) + len([x for x in vec_sites if "[u8;" in " ".join(l["ty"].get("s", "") for l in x[0].locals)]))
+    for (b, blk, c, t) in vec_sites:
+        # a key decoded into a Vec and then turned into a fixed-size key: the WHOLE decoded length has to be the key size
+        carriers, calls, switches = b.slice_fwd([t["dest"][0]])
+        to_key = [cc for (_, cc, _, _) in calls if cc.name in ("TryInto::try_into", "TryFrom::try_from") or cc.method in ("copy_from_slice", "clone_from_slice")]
+        if not to_key:
+            continue
+        used_len = any(cc.method == "len" for (_, cc, _, _) in calls)
+        prefix = [cc.name for (_, cc, _, _) in calls if (cc.method in ("get", "index", "get_mut", "split_at", "first_chunk", "split_first_chunk", "truncate", "take")
+                                                         and ("RangeTo" in str(cc.f) or "Range<" in str(cc.f) or cc.method in ("split_at", "first_chunk", "split_first_chunk", "truncate", "take")))]
+        ok = used_len or not prefix
+        ctx.ob("G5", b.defp, "over-long-key-refused", loc(t["sp"]), ok,
+               "the whole decoded key is converted to the key size (a length mismatch is an error)" if ok else
+               f"only a prefix of the decoded key ({sorted(set(prefix))}) is converted to the cipher's key size and its full length is never compared: an over-long key is "
+               "silently cut to its first bytes instead of being refused — and the server-key path rejects the same key, so the two credential paths disagree")
     for (b, blk, c, t) in dec_sites:
         # the Ok payload (decoded slice) must reach a len() that is compared
         carriers, calls, switches = b.slice_fwd([t["dest"][0]])
